@@ -37,7 +37,7 @@ func init() {
 	register(&Prop{
 		ID:         "C09",
 		Title:      "The expression front end is total and strict",
-		Decided:    "absence of run-time faults, progress, and the parser's acceptance condition, over every function of interpreter and interpreter/language reachable from Language.Match/Update: (R1) every single-result type assertion is dominated by facts that establish the asserted dynamic type (type-tag tests, matchTypes, same-type classes, type switches, earlier comma-ok, facts established at all call sites, constant-specialised callee results); (R2) every slice/string index and slice expression is bounded: range/count-down loop indices, constant indices under an established length, two-sided guards – three sites rest on named assumptions; (R3) nil discipline: every nil result of a parse function is accompanied by a recorded error, both entry points either assign the parsed expression or record an error on every path, and Match/Update test the parser's errors before evaluating; (R4) every loop either iterates over a finite container / counts, or consumes input on every cycle; (R5) every recursive cycle contains a progressing edge (a token consumed before the call, or an argument that is a strict sub-term of a parameter, or a visited-set guard); (R6) strictness: the whole input must be one sentence – a second sentence records an error; (R7) an evaluation error object always becomes an error return of Match/Update; (R6) a malformed operand is only noticed when it is evaluated: every node evaluator evaluates all its operands, and every member of a list operand, before it returns a non-error result (= C16.R8).",
+		Decided:    "absence of run-time faults, progress, and the parser's acceptance condition, over every function of interpreter and interpreter/language reachable from Language.Match/Update: (R1) every single-result type assertion is dominated by facts that establish the asserted dynamic type (type-tag tests, matchTypes, same-type classes, type switches, earlier comma-ok, facts established at all call sites, constant-specialised callee results); (R2) every slice/string index and slice expression is bounded: range/count-down loop indices, constant indices under an established length, two-sided guards – three sites rest on named assumptions; (R3) nil discipline: every nil result of a parse function is accompanied by a recorded error, both entry points either assign the parsed expression or record an error on every path, and Match/Update test the parser's errors before evaluating; (R4) every loop either iterates over a finite container / counts, or consumes input on every cycle; (R5) every recursive cycle contains a progressing edge (a token consumed before the call, or an argument that is a strict sub-term of a parameter, or a visited-set guard); (R6) strictness: the whole input must be one sentence – a second sentence records an error; (R7) an evaluation error object always becomes an error return of Match/Update; (R6) a malformed operand is only noticed when it is evaluated: every node evaluator evaluates all its operands, and every member of a list operand, before it returns a non-error result (= C16.R8); (R8) wherever the parser builds an identifier node from the current token by a direct call (operands of BETWEEN, path members) the token kind has just been checked (expectPeek(IDENT) or an equivalent test) – otherwise an operator, a parenthesis or the end of input is taken for a name and a non-sentence is evaluated; and the lexer produces the end-of-input token only under a test of its position against the input length, so a NUL byte inside the expression does not cut it short.",
 		NotDecided: "that every ungrammatical string is rejected by the inner productions (R3/R6 decide the top-level acceptance condition and 'nil implies error'); stack depth for deeply nested but finite inputs; arithmetic overflow in list indexes converted from float64.",
 		Assumes:    []string{"objects and AST nodes are finite acyclic trees built from finite inputs (structural-descent recursion terminates)", "Lexer.readPosition/position are only ever increased from zero (verified: the only stores are in readChar)"},
 		Rules: []RuleDef{
@@ -49,6 +49,7 @@ func init() {
 			{ID: "R6", Desc: "the whole input is one sentence (strictness)", Run: c09R6},
 			{ID: "R7", Desc: "evaluation errors surface as errors of Match/Update (T-DOM)", Run: c09R7},
 			{ID: "R6", Desc: "strictness: every operand and every list member is evaluated before a non-error result (= C16.R8)", Run: aliasRule("R6", c16R8, nil)},
+			{ID: "R8", Desc: "the parser takes an identifier only from a token known to be one, and the lexer ends the input only at its end (T-GUARD)", Run: c09R8},
 		},
 	})
 }
@@ -1249,4 +1250,94 @@ func arrayIndexVerdict(arr *types.Array, idx ssa.Value, in ssa.Instruction) (str
 		}
 	}
 	return fmt.Sprintf("a fixed-size array of length %d is indexed with a value of type %s whose range exceeds it and no dominating comparison bounds it: an index beyond the table panics (index out of range)", arr.Len(), typeName(idx.Type())), true
+}
+
+// c09R8: (a) Parser.parseIdentifier turns WHATEVER the current token is into an identifier node. Reached through the prefix
+// table it is only called for IDENT tokens; every direct call must be preceded by a check of the token kind.
+// (b) the lexer marks the end of input with the byte value 0: the EOF token must be issued only when the position has
+// reached the end of the input, otherwise a NUL byte inside the expression ends it.
+func c09R8(e *Engine) {
+	pi := e.fn("lang", "Parser.parseIdentifier")
+	if e.anchor("R8", "lang.Parser.parseIdentifier", pi == nil) {
+		n := 0
+		for _, fn := range e.funcs("lang") {
+			instrs(fn, func(in ssa.Instruction) {
+				c, ok := in.(*ssa.Call)
+				if !ok || c.Call.StaticCallee() != pi {
+					return
+				}
+				n++
+				construct := e.fname(fn) + ":identifier-from-checked-token"
+				// the nearest preceding token-advancing call on every path must be a successful expectPeek(IDENT) /
+				// a test of the current token's type against IDENT
+				checked := false
+				for _, cd := range condsAt(c.Block()) {
+					cd = normCond(cd)
+					if t, ok := cd.V.(*ssa.Call); ok && cd.Val && t.Call.StaticCallee() != nil {
+						for _, a := range t.Call.Args {
+							if k, isK := constString(a); isK && k == "IDENT" {
+								// no token is consumed between the check and the use
+								consumed := false
+								instrs(fn, func(j ssa.Instruction) {
+									if jc, ok := j.(*ssa.Call); ok && jc.Call.StaticCallee() != nil && jc.Call.StaticCallee().Name() == "nextToken" && idominates(t, jc) && idominates(jc, c) {
+										consumed = true
+									}
+								})
+								if !consumed {
+									checked = true
+								}
+							}
+						}
+					}
+					if b, ok := cd.V.(*ssa.BinOp); ok && ((b.Op == token.EQL) == cd.Val) {
+						if k, isK := constString(b.Y); isK && k == "IDENT" {
+							checked = true
+						}
+					}
+				}
+				if checked {
+					e.pass("R8", construct, e.ipos(c), "the token has just been checked to be an identifier")
+				} else {
+					e.fail("R8", construct, e.ipos(c), "an identifier node is built from the current token without a check of its kind: an operator, a parenthesis or the end of the input is taken for a name, so strings such as `a BETWEEN :x AND`, `a BETWEEN ( AND )` or `a.( = :v` are evaluated instead of rejected")
+				}
+			})
+		}
+		if n == 0 {
+			e.pass("R8", "lang.Parser:no-direct-identifier-construction", "-", "identifiers are only built through the prefix table")
+		}
+	}
+	nt := e.fn("lang", "Lexer.NextToken")
+	if e.anchor("R8", "lang.Lexer.NextToken", nt == nil) {
+		// stores of the constant token type EOF
+		found, guarded := 0, 0
+		instrs(nt, func(in ssa.Instruction) {
+			st, ok := in.(*ssa.Store)
+			if !ok {
+				return
+			}
+			if k, isK := constString(st.Val); !isK || k != "EOF" {
+				return
+			}
+			found++
+			for _, cd := range condsAt(in.Block()) {
+				b, ok := normCond(cd).V.(*ssa.BinOp)
+				if !ok {
+					continue
+				}
+				for _, side := range []ssa.Value{b.X, b.Y} {
+					if lc, ok := side.(*ssa.Call); ok && staticCalleeName(lc) == "builtin.len" {
+						guarded++
+					}
+				}
+			}
+		})
+		switch {
+		case found == 0:
+			e.undecided("R8", "lang.Lexer.NextToken:eof-only-at-end", e.pos(nt.Pos()), "the place where the EOF token is produced was not found")
+		case guarded < found:
+			e.fail("R8", "lang.Lexer.NextToken:eof-only-at-end", e.pos(nt.Pos()), "the end-of-input token is produced for the byte value 0 without comparing the position with the length of the input: a NUL byte inside an expression ends it, `a = :a\\x00 anything` is evaluated as `a = :a`")
+		default:
+			e.pass("R8", "lang.Lexer.NextToken:eof-only-at-end", e.pos(nt.Pos()), "EOF is produced under a comparison of the position with len(input)")
+		}
+	}
 }
